@@ -147,6 +147,19 @@ CLAIMED = {
         "note": TRUSTED,
         "technique": "static analysis: type-directed hash-order flow over MIR with consumer fingerprints and checked order-insensitivity idioms",
     },
+    "C20": {
+        "text": "Static who-may-write / dominance / provenance rules over the whole okane_golden crate: every call that can create or "
+                "modify a file sits in Golden::assert behind the true edge of is_update_golden(), writes the unmodified `got` to "
+                "self.path, its io::Result is consumed by expect/unwrap/?, and in update mode no return precedes it; is_update_golden "
+                "reads exactly UPDATE_GOLDEN and is true only behind a non-emptiness test of the value; nothing else reads or sets "
+                "the environment; Golden::new produces a Golden without file content only under kind()==NotFound && "
+                "is_update_golden(), other read errors propagate, content = read_as_utf8(path) which applies exactly CRLF->LF; every "
+                "normal return of assert lies behind == of the unmodified `got` against want (self.content in read mode, got in "
+                "update mode) and the unequal edge panics; Golden.content is never modified.  str equality and the file system are trusted.",
+        "design_ref": "DESIGN.md §4 C20",
+        "note": TRUSTED,
+        "technique": "static analysis: who-may-call enumeration with positive control, dominance by guard edges, operand provenance, constant comparison over MIR",
+    },
 }
 
 _WIP = "check not built yet in this session (design: DESIGN.md §4); not claimed until it is"
